@@ -118,7 +118,53 @@ def run(ctx: Ctx):
             ctx.ob("C06.c", inst, ok, sl.where, why or f"mask {show_leaf(mleaf)}  =>  checker {show_leaf(cleaf)}",
                    construct=f"{sl.fi.qualname}:{cname_lit}:sibling:{mname}" + (":" + ",".join(sorted(miss)) if miss else ""))
     accumulators(ctx)
+    per_row_asserts(ctx)
     gate(ctx)
+
+
+def per_row_asserts(ctx: Ctx):
+    """C06.f: every assert judges each instance on its own data: no row pick and no
+    rank-mismatched broadcast ([B] against [B, 1]) inside an assert condition (shared engine
+    with C04)."""
+    from .. import batchaxis as ba
+    from .C04 import strip_top_all, locate
+    from ..envs import generator_slot
+    for cname, (path, family) in T.CHECK_ENVS.items():
+        env = EnvA(ctx.repo, path, cname)
+        sl = env.slot("check_solution_validity")
+        ranks = ba.RankFacts()
+        rs = env.slot("_reset")
+        if rs is not None and rs.td is not None:
+            ranks.learn_from_reset(rs.td)
+            g, gsl = generator_slot(ctx.repo, env.cls)
+            if gsl is not None and gsl.td is not None:
+                gr = ba.RankFacts()
+                gr.learn_from_reset(gsl.td)
+                for k, v in rs.td.cells.items():
+                    v0 = nf.strip(v)
+                    if v0.op == "cell0" and v0.args[1] in gr.cell_rank and k not in ranks.cell_rank:
+                        ranks.cell_rank[k] = gr.cell_rank[v0.args[1]]
+        ranks.learn_loop_invariants()
+        bad = []
+        n_parts = 0
+        for e in sl.events("assert"):
+            for part in strip_top_all(e.data):
+                n_parts += 1
+                for h in ba.hits(part, ranks):
+                    if h.kind in ("row-pick", "rank-broadcast"):
+                        bad.append(h)
+        if bad:
+            seen = set()
+            for h in bad:
+                if h.node.id in seen:
+                    continue
+                seen.add(h.node.id)
+                fn, text, where = locate(ctx, h)
+                ctx.ob("C06.f", f"{cname}.checker:{h.kind}", False, where or sl.where,
+                       f"{h.kind} `{text}`: {h.why} -- the verdict for one instance depends on other rows of the batch",
+                       construct=f"{fn}:{h.kind}:{text}")
+        else:
+            ctx.ob("C06.f", f"{cname}.checker:per-row", True, sl.where, f"{n_parts} assert conditions judge rows independently")
 
 
 CHECK_ACCUM_ENVS = ("CVRPEnv", "SDVRPEnv", "CVRPTWEnv", "MTVRPEnv")
